@@ -50,6 +50,8 @@ pub const MIRRORS: &[(&[&str], &str, &str, &str)] = &[
     (&["C07"], "generator/rasn/utils.rs", "format_oid", "Lexer.Values"),
     // linker
     (&["C09"], "validator/linking/mod.rs", "link_components_of", "Link.ComponentsOf"),
+    (&["C09"], "validator/linking/mod.rs", "resolve_parameters", "Link.Params.instantiate"),
+    (&["C09"], "validator/linking/mod.rs", "with_resolved_value_chains", "Link.Params.resolveChains"),
     (&["C02"], "validator/linking/mod.rs", "recurses", "Link.Recursion.recurses"),
     (&["C02"], "validator/linking/mod.rs", "mark_recursive", "Link.Recursion.markRecursive"),
     // constraints
